@@ -240,7 +240,7 @@ func runC05(r *Run) {
 	nTasks := 1 + t.Intn(4, "tasks")
 	var tasks []*Task
 	for i := 0; i < nTasks; i++ {
-		rounds := 5 + t.Intn(14, "rounds")
+		rounds := 5 + t.Intn(scale(14, 30), "rounds")
 		i := i
 		var holds []time.Duration
 		var outs []int
